@@ -761,3 +761,43 @@ def rule_random_helpers(ctx, cfg='prod-all'):
     ret = eng.summary(RI)['ret'].get((), set())
     ok2 = any(strip(a)[0] == 'p' and strip(a)[1] == bb.param_index('a') for a in ret)
     yield Ob('RF-Q', '%s#shape' % RI, ok and ok2, 'rand_int(a, b) = a + random_below(b - a + 1)', bb.span, fact={'range_uses_a_b_1': ok, 'result_offset_by_a': ok2}, expected='both')
+
+
+# ---------------------------------------------------------------------------------------- C18: the random exponent s of a signature
+def rule_signature_randomness_bits(ctx, cfg='prod-all'):
+    """The blinding exponent s of a CL03 signature is random_bits(ls) (ls = ln + lm + lin): in every signing function the value stored as `s`
+    (or as the issuer's share `rprime`) is a draw whose bit length, evaluated with the constants of each ciphersuite, is that suite's ls."""
+    prog = ctx.prog(cfg)
+    suites = {}
+    for ty, cs in prog.impl_consts('CLCiphersuite').items():
+        suites[ty.split('::')[-1]] = {n: int(c['int']) for n, c in cs.items() if c.get('int') is not None}
+    if len(suites) < 3:
+        raise AnchorMissing('CLCiphersuite impls: %s' % sorted(suites))
+    n = 0
+    for p, b in sorted(prog.bodies.items()):
+        if b.from_expansion or not p.startswith(('cl03::signature::', 'cl03::blind::')) or b.kind == 'Closure':
+            continue
+        for bi, st in b.stmts():
+            if st['k'] != 'assign' or st['rv']['k'] != 'agg' or st['rv'].get('ak') != 'adt':
+                continue
+            fields = [str(f) for f in st['rv'].get('fields', [])]
+            nm = st['rv']['name'].split('::')[-1]
+            if nm not in ('CL03Signature', 'CL03BlindSignature') or 'e' not in fields:
+                continue
+            for fname in ('s', 'rprime'):
+                if fname not in fields:
+                    continue
+                op = st['rv']['ops'][fields.index(fname)]
+                facts, ok, drawn = {}, True, True
+                oc = origin_call(ctx.zone(cfg).zf(p), op['pl']['l']) if op['k'] in ('copy', 'move') and not op['pl'].get('p') else None
+                if oc is None or not (local_target(ctx.eng(cfg), oc) or '').endswith('random_bits'):
+                    continue          # a value that is not a fresh draw here (unblinding adds the holder's share to the issuer's): not this rule
+                for sname, sv in sorted(suites.items()):
+                    bb = Bits(ctx, cfg, p, sv).bits_op(op)
+                    facts[sname] = {'bits': bb[0] if bb else None, 'from': list(bb[1])[:3] if bb else None, 'ls': sv.get('ls')}
+                    if bb is None or bb[0] != sv.get('ls'):
+                        ok = False
+                n += 1
+                yield Ob('RF-Q', '%s#%s-bits' % (p, fname), ok, 'the random exponent of the signature has ls = ln + lm + lin bits in every ciphersuite',
+                         '%s L%s' % (b.file(), st.get('line')), fact=facts, expected='ls of each suite')
+    yield Ob('RF-Q', 'cl03#signature-randomness', n >= 2, 'signing functions whose random exponent was evaluated', '', fact=n, expected='>= 2', nontrivial=False)
